@@ -8,7 +8,7 @@ Fixpoint walk_fs (rs : list (Z * Z)) (coefs : list Q) (i : nat) : list Q :=
   match rs with
   | [] => []
   | (start, step) :: rs' =>
-      (if Qeq_bool (nth_coef coefs i) 0 then 0%Q else (inject_Z step * nth_coef coefs i)%Q) :: walk_fs rs' coefs (S i)
+      (if Qeq_bool (nth_coef coefs i) 0 then 0%Q else (0 + inject_Z step * nth_coef coefs i)%Q) :: walk_fs rs' coefs (S i)
   end.
 
 Lemma aff_walk_fs : forall rs coefs i base acc b incs,
